@@ -238,6 +238,8 @@ pub fn main_thread_panicked(eng: &Engine) -> Option<String> {
 
 /// lines: the text lines to send; eof_after: Some(j) = close stdin after j lines and
 /// expect exit; None = send all, `stop`, `isready`, then `quit`.
+static TIMEOUT_CONFIRMED: std::sync::atomic::AtomicBool = std::sync::atomic::AtomicBool::new(false);
+
 pub fn run_session(ctx: &Ctx, lines: &[String], eof_after: Option<usize>, raw_tail: Option<&[u8]>, rep: &mut Report) -> Result<(), Violation> {
     match run_session_once(ctx, lines, eof_after, raw_tail, rep, Duration::from_secs(3)) {
         Ok(()) => Ok(()),
@@ -247,7 +249,9 @@ pub fn run_session(ctx: &Ctx, lines: &[String], eof_after: Option<usize>, raw_ta
             // twice, with 20 s.  A real wedge is still there; a process that was merely starved
             // of CPU for 3 s on a loaded machine is not.
             let pure_timeout = v.sig == "quit/no-exit" || v.sig == "eof/no-exit/hung" || v.sig.starts_with("survive/hung/");
-            if !pure_timeout {
+            // once one such verdict has been confirmed in this process, later ones (shrinking re-runs
+            // the failing session dozens of times) are taken at face value
+            if !pure_timeout || TIMEOUT_CONFIRMED.load(std::sync::atomic::Ordering::Relaxed) {
                 return Err(v);
             }
             let mut last = v;
@@ -260,6 +264,9 @@ pub fn run_session(ctx: &Ctx, lines: &[String], eof_after: Option<usize>, raw_ta
                     }
                     Err(v2) => last = v2,
                 }
+            }
+            if !uciproc::harness_overloaded() {
+                TIMEOUT_CONFIRMED.store(true, std::sync::atomic::Ordering::Relaxed);
             }
             if uciproc::harness_overloaded() {
                 rep.infra_errors.push(format!("inconclusive: {} - but this process itself is being kept from running (machine overloaded)", last.detail));
